@@ -17,6 +17,9 @@ pub fn start_name(s: Start) -> String {
         Start::Ip => "ip".into(),
         Start::Ipv4 => "ipv4".into(),
         Start::Ipv6 => "ipv6".into(),
+        Start::Transport(n) => format!("transport{}", n),
+        Start::Ext(n) => format!("ext{}", n),
+        Start::Arp => "arp".into(),
     }
 }
 
@@ -34,6 +37,7 @@ pub fn entry_id(f: Family, s: Start) -> u64 {
         Start::Ip => 4,
         Start::Ipv4 => 5,
         Start::Ipv6 => 6,
+        _ => 7,
     };
     a * 16 + b
 }
